@@ -6,11 +6,16 @@ import PyrollModel.Impl
           last true condition wins, the extra function is the default) and the polyline sampler
           (`_enumerate_contour_points`: junction vertices, `np.linspace(a, b, N, endpoint=False)` samples of one piece
           function each, guarded by `np.isclose`), run on the piece / segment TABLES that
-          `driver/translate/c10_depth.py` reads out of the source on every run (`Gen/C10.lean`).
+          `driver/translate/c10_depth.py` reads out of the source on every run (`Gen/C10.lean`).  The ARGUMENT of the depth
+          function is part of the model: which numeric kind the caller hands over (`PyScalar`, `PyArg`: integer / float /
+          array of either), what the source does to it before `np.piecewise` (`ArgOp` list read by the translator), and
+          the dtype `np.piecewise` hands the value back in (`localDepthElem`, `localDepthArg`).
   Part 2  roll: the surface grid (`surface_x` = mirrored concatenation of `linspace`s mapped through a translated outer
           formula, `surface_y` = a translated formula of one contour ordinate and one grid abscissa), linear
           interpolation on a polyline (`scipy.interpolate.interp1d`, kind linear, extrapolating) and the tensor-product
-          (bi)linear interpolation on a rectilinear grid (`scipy.interpolate.interpn`, method linear).
+          (bi)linear interpolation on a rectilinear grid (`scipy.interpolate.interpn`, method linear);
+          `Roll.surface_interpolation(x, z)` with the conversions of its two positions and the layout of its result
+          (`surfaceInterpElem`, `surfaceInterpArg`).
   Part 3  spline groove: face test and boundary stripping (the kinds the translator found), centring by a translated list term, half width / width / usable width / depth
           as translated list terms, depth function = `interp1` of the centred polyline; `Refines` = insertion of collinear
           vertices.
@@ -62,6 +67,39 @@ inductive LTerm where
   | div (a b : LTerm)
   deriving Repr, DecidableEq, Inhabited
 
+/-- one abscissa as the caller holds it: an integer (python `int`, `np.int8 … np.uint64`, an entry of an integer list /
+    array; unbounded here - fixed-width overflow is not modelled) or a float -/
+inductive PyScalar (α : Type) where
+  | int (n : Int)
+  | float (x : α)
+  deriving Repr, DecidableEq, Inhabited
+
+/-- the argument of `local_depth`: a scalar (also a 0-d array) or an array / list / tuple, of integers or of floats (a list
+    mixing both is a float array for numpy) -/
+inductive PyArg (α : Type) where
+  | int (n : Int)
+  | float (x : α)
+  | intArray (ns : List Int)
+  | floatArray (xs : List α)
+  deriving Repr, DecidableEq, Inhabited
+
+/-- one conversion of the argument (read from the source, in execution order) -/
+inductive ArgOp where
+  /-- `np.abs(z)`: keeps the dtype -/
+  | abs
+  /-- `np.asarray(z)` without a dtype: keeps the dtype -/
+  | asArray
+  /-- `np.asarray(z, dtype=float)` and friends: every numeric kind becomes float64 -/
+  | asFloat
+  deriving Repr, DecidableEq, Inhabited
+
+/-- the C cast `double → integer` numpy performs when a float is stored into an integer array: toward zero -/
+class PyTrunc (α : Type) where
+  trunc : α → Int
+
+instance : PyTrunc Float where
+  trunc x := x.toInt64.toInt
+
 section generic
 variable {α : Type} [PyNum α]
 
@@ -90,6 +128,55 @@ def piecewise (ρ : String → α) (z : α) : List Piece → α → α
 def localDepth (useAbs : Bool) (pieces : List Piece) (dflt : Expr) (ρ : String → α) (z : α) : α :=
   let a := if useAbs then PyNum.abs z else z
   piecewise ρ a pieces (Expr.eval (setVar ρ "z" a) dflt)
+
+/-! #### the ARGUMENT of `local_depth`: which numeric kind the caller hands over, and what the source does to it
+
+`local_depth(z)` is called with python ints and floats, numpy integer / float scalars, lists and arrays of either.  numpy
+gives every such argument ONE dtype (an integer one or a float one); `np.abs` and `np.asarray(z)` keep it,
+`np.asarray(z, dtype=float)` turns integers into floats, and `np.piecewise(z, …)` allocates its RESULT with the dtype of `z`:
+a float computed by a contour-line function is stored into an integer result by the C cast (toward zero).  The statements
+before the `np.piecewise` call are read by the translator into a list of `ArgOp`; `localDepthElem` runs them. -/
+
+/-- the embedding of the integers into the carrier (`float(n)`) -/
+def ofInt (n : Int) : α := if n < 0 then -(PyNum.nat n.natAbs) else PyNum.nat n.natAbs
+
+/-- the position a scalar stands for -/
+def PyScalar.val : PyScalar α → α
+  | .int n => ofInt n
+  | .float x => x
+
+def ArgOp.onElem : ArgOp → PyScalar α → PyScalar α
+  | .abs, .int n => .int n.natAbs
+  | .abs, .float x => .float (PyNum.abs x)
+  | .asArray, s => s
+  | .asFloat, s => .float s.val
+
+/-- the statements before `np.piecewise`, run on one entry of the argument -/
+def convElem (ops : List ArgOp) (s : PyScalar α) : PyScalar α := ops.foldl (fun s o => o.onElem s) s
+
+/-- `np.piecewise` stores the value `v` into a result that has the dtype of (the converted) `z` -/
+def storeLike [PyTrunc α] (s : PyScalar α) (v : α) : PyScalar α :=
+  match s with
+  | .int _ => .int (PyTrunc.trunc v)
+  | .float _ => .float v
+
+/-- `GenericElongationGroove.local_depth` on one entry of its argument, as the caller gets it back: conversions, then
+    `np.piecewise` at the position the converted entry stands for, stored with the converted entry's dtype -/
+def localDepthElem [PyTrunc α] (ops : List ArgOp) (pieces : List Piece) (dflt : Expr) (ρ : String → α)
+    (s : PyScalar α) : PyScalar α :=
+  let c := convElem ops s
+  storeLike c (piecewise ρ c.val pieces (Expr.eval (setVar ρ "z" c.val) dflt))
+
+def PyArg.elems : PyArg α → List (PyScalar α)
+  | .int n => [.int n]
+  | .float x => [.float x]
+  | .intArray ns => ns.map .int
+  | .floatArray xs => xs.map .float
+
+/-- `local_depth(arg)`: entry by entry (numpy broadcasts the conversions and `np.piecewise` over the array) -/
+def localDepthArg [PyTrunc α] (ops : List ArgOp) (pieces : List Piece) (dflt : Expr) (ρ : String → α)
+    (a : PyArg α) : List (PyScalar α) :=
+  a.elems.map (localDepthElem ops pieces dflt ρ)
 
 /-- `np.linspace(a, b, n, endpoint=False)`: `arange(n) * ((b − a) / n) + a` -/
 def linspaceOpen (a b : α) (n : Nat) : List α :=
@@ -157,6 +244,17 @@ def interp1 : List (α × α) → α → α
     (`G` indexed `[x][z]`) -/
 def bilinear (xs zs : List α) (G : List (List α)) (x z : α) : α :=
   interp1 (xs.zip (G.map fun row => interp1 (zs.zip row) z)) x
+
+/-- `Roll.surface_interpolation(x, z)` at ONE pair of positions as the caller holds them (integers or floats): the
+    conversions the source applies to `x` resp. `z` (read by the translator), then `interpn` at the positions the converted
+    entries stand for (scipy evaluates in float64 whatever the dtype of the query points) -/
+def surfaceInterpElem (opsX opsZ : List ArgOp) (xs zs : List α) (G : List (List α)) (x z : PyScalar α) : α :=
+  bilinear xs zs G (convElem opsX x).val (convElem opsZ z).val
+
+/-- the array form `surface_interpolation(xq, zq)`: `np.meshgrid(x, z)` + `reshape(z.size, x.size)` = one ROW per entry of
+    `zq`, one column per entry of `xq` -/
+def surfaceInterpArg (opsX opsZ : List ArgOp) (xs zs : List α) (G : List (List α)) (xq zq : PyArg α) : List (List α) :=
+  zq.elems.map fun z => xq.elems.map fun x => surfaceInterpElem opsX opsZ xs zs G x z
 
 /-! ### Part 3: spline groove -/
 
